@@ -47,7 +47,7 @@
 //     enumeration order (cap reported in the evidence);
 //   - second histories: the fixed lists of g2HistsFor, all of them for every state (long
 //     histories: the first two);
-//   - the base histories' own crash points: all subsets of the last g2BaseMaxBits
+//   - the base histories' own crash points: all subsets of the last g2BaseMaxBits(tier)
 //     undetermined sectors x {all, none} of the earlier ones + the interval families.
 package main
 
@@ -190,9 +190,14 @@ func g2ForLong(tier string) *g2task {
 }
 
 // g2BaseMaxBits bounds the exhaustive sector subsets of the base histories' own (generation-1)
-// crash points in both tiers: a torn 9 KiB write has 19 undetermined sectors, i.e. all subsets
-// of the last 10 x {all, none} of the first 9 + the interval families.
-const g2BaseMaxBits = 10
+// crash points: a torn 9 KiB write has 19 undetermined sectors, i.e. (thorough) all subsets of
+// the last 10 x {all, none} of the first 9 + the interval families; quick: the last 8.
+func g2BaseMaxBits(tier string) int {
+	if tier == "thorough" {
+		return 10
+	}
+	return 8
+}
 
 // bigShapes: names and payload sizes of the shapes with a record larger than one page.
 func bigShapes() map[string]int {
